@@ -89,8 +89,11 @@ Definition run_elem : dispatcher := fun op args =>
   else if opeq op "from-f64" then
     match args with
     | [a] => match as_N a with
-             | Some b => let '(s, n, d) := from_f64_parts (fl_of_bits b) in
-                         Some (XL [XS (B"ok"); sx_bool s; sx_N n; sx_N d])
+             | Some b => Some (match from_f64_parts (fl_of_bits b) with
+                               | Ok (s, n, d) => XL [XS (B"ok"); sx_bool s; sx_N n; sx_N d]
+                               | Err e => sx_err e
+                               | Panic k => sx_panic k
+                               end)
              | None => Some sx_bad end
     | _ => Some sx_bad
     end
